@@ -219,7 +219,7 @@ def mutants(text, rng, k):
 
 
 def c12(pid, tier, replay):
-    from . import genlex
+    from . import genlex, p_hdr
     res = core.Result(pid, "model_checking", tier)
     seed = core.seed()
     rng = random.Random(seed * 19 + 12)
@@ -265,6 +265,10 @@ def c12(pid, tier, replay):
             for ch in ["é", "\u200e", "\\\u0085", "\\\u200f", "\U0001F600"]:
                 for i in range(len(base) + 1):
                     add(entry, base[:i] + ch + base[i:])
+        # generated %grmtools sections (nested arrays, namespaces, constructors, flags, strings
+        # with escapes, numbers around u64::MAX, duplicates) and their mutants
+        for h in p_hdr.extra_items(rng, 300 if thorough else 50, 12 if thorough else 8):
+            add("header", h)
     job = os.path.join(res.wd, "job.json")
     trace = os.path.join(res.wd, "trace.ndjson")
     with open(job, "w") as f:
@@ -290,6 +294,24 @@ def c12(pid, tier, replay):
         if not any(k.endswith(":err") for k in classes) or not any(k.endswith(":ok") for k in classes):
             raise core.ToolError("vacuity: no erroneous / no accepted inputs: %s" % classes)
     run_parts(res, "TraceTotal", lines, {}, 1 if replay else (12 if thorough else 6), byid, seed)
+    # the section parser against its transcription: exact prediction of every outcome
+    hl = p_hdr.events(items, lines)
+    res.notes["header_outcomes_predicted"] = len(hl)
+    if hl:
+        if not replay:
+            for x in hl:
+                e = json.loads(x)
+                if e["res"]["class"] == "ok" and e["res"]["pos"] > 0:
+                    e["res"]["pos"] += 1
+                    v = validate(res, "TraceHeader", 9001, [json.dumps(e) + "\n"], {})
+                    st = dict(rejected=len(v["devs"]) > 0, corruption="end position of an accepted section + 1")
+                    res.notes["binding_selftest_header"] = st
+                    if not st["rejected"]:
+                        raise core.ToolError("binding self-test (header) failed")
+                    break
+        run_parts(res, "TraceHeader", hl, {}, 1 if replay else (8 if thorough else 4), byid, seed)
+    if not replay:
+        p_hdr.mc(res, tier)
     for i in items[1:4]:
         res.sample(i)
     res.assumptions += ["a parser that does not answer within 4 s is reported as not returning",
